@@ -595,6 +595,12 @@ def _r8_pairing(run):
                                                                               and v.args[0].func.id == "map" and len(v.args[0].args) == 2 and _over_descriptions(v.args[0].args[1]))):
                                         builds += 1
                                         continue
+                                    # a copy of the list itself keeps its order: list(self.L) / tuple(..) / self.L[:] / self.L.copy()
+                                    if (isinstance(v, ast.Call) and isinstance(v.func, ast.Name) and v.func.id in ("list", "tuple") and len(v.args) == 1 and is_list(v.args[0])) \
+                                            or (isinstance(v, ast.Subscript) and is_list(v.value) and isinstance(v.slice, ast.Slice) and v.slice.lower is None
+                                                and v.slice.upper is None and v.slice.step is None) \
+                                            or (isinstance(v, ast.Call) and isinstance(v.func, ast.Attribute) and v.func.attr == "copy" and is_list(v.func.value)):
+                                        continue
                                     names = {x.func.id for x in ast.walk(v) if isinstance(x, ast.Call) and isinstance(x.func, ast.Name)}
                                     if names & {"sorted", "reversed", "set", "filter"} or (isinstance(v, ast.ListComp) and any(g.ifs for g in v.generators)):
                                         bad.append((f, st, "is rebuilt re-ordered or filtered (%s)" % ast.unparse(v)[:60]))
